@@ -2,7 +2,8 @@
 \* P3 for C10 (relational observations): Levenberg-Marquardt on exponential / logistic curve fits and on a
 \* one-parameter line over a short abscissa window never returns a larger residual sum of squares than it
 \* started from, returns finite parameters and a p x p covariance; on the line it reaches the least-squares
-\* slope (relative 2^-20).
+\* slope (relative 2^-20).  The recorder ends with budget sweeps (every step budget 1..8 on twelve non-linear problems): the
+\* statements below hold for EVERY budget - in particular when it runs out on an accepted step, or right after a rejected one.
 EXTENDS Integers, Sequences, TLC, Json, IOUtils
 Rec == ndJsonDeserialize(IOEnv.TRACE)
 VARIABLE l
